@@ -187,10 +187,10 @@ def fenv_text(cx, consts):
     fmax = sys.float_info.max
 
     def dlo(u):
-        return max(-fmax, min(-1e6, u - max(1e6, abs(u))))
+        return min(u, max(-fmax, min(-1e6, u - max(1e6, abs(u)))))
 
     def dhi(lo):
-        return min(fmax, max(1e6, lo + max(1e6, abs(lo))))
+        return max(lo, min(fmax, max(1e6, lo + max(1e6, abs(lo)))))
 
     def table(f):
         body = "v"
@@ -338,6 +338,30 @@ def grid_false(tier):
         ps += [all_p(e), is_set_of_p(e)]
     ps += [ge_p(3) & ge_p(10), is_int_p & ge_p(0), ge_p(3) | ge_p(-3), is_int_p | is_str_p, is_none_p | eq_p(5), ne_p(1) & ne_p(2)]
     return ps
+
+
+def search_extra(mode):
+    """search only (implementation side, judged by calling the predicate on every yielded value): shapes and magnitudes beyond the
+    replay grid - bounded intervals with every strictness in both operand orders, float bounds near the end of the float range,
+    disjunctions whose left stream is finite, and element predicates that print alike asked one after the other"""
+    from predicate.standard_predicates import le_p, lt_p, ne_p
+    ps = []
+    for a, b in ((0, 3), (-5, 5), (-20, -17), (7, 8), (2, 2)):
+        for lo in (ge_p, gt_p):
+            for hi in (le_p, lt_p):
+                ps += [lo(a) & hi(b), hi(b) & lo(a)]
+    for b in (1e308, 1.5e308, 8.99e307, 6.1e307, -1e308, -1.5e308, -8.99e307, 1.7976931348623157e308, -1.7976931348623157e308, 5e-324):
+        ps += [ge_p(b), gt_p(b), le_p(b), lt_p(b)]
+    ps += [all_p(ge_p(1e308)), all_p(le_p(-1e308)), any_p(gt_p(1.5e308))]
+    if mode == "false":
+        ps += [is_not_none_p | is_truthy_p, ne_p("a") | PP.is_empty_p, is_not_none_p | ge_p(3), ne_p(4) | is_truthy_p, is_truthy_p | is_not_none_p]
+    else:
+        ps += [is_none_p | is_falsy_p, eq_p(4) | is_none_p | PP.is_empty_p, in_p(1) | ge_p(3), PP.is_empty_p | eq_p("a")]
+    for ma, mb in gen.twin_makers()[:12]:
+        for q in (all_p, any_p, is_set_of_p):
+            ps += [q(ma()), q(mb())]
+    tw = [q(m()) for ma, mb in gen.twin_makers()[:12] for q in (all_p, is_set_of_p) for m in (mb, ma)]
+    return ps + tw
 
 
 # ---------------------------------------------------------------- search helpers
